@@ -130,8 +130,17 @@ def judge(ctx, status: str) -> list[dict]:
                         v("R2", f"{c.rec.request.method} {c.rec.request.path} answered {c.status} after DELETE {d.rec.request.path} succeeded "
                                 f"({d.status}) earlier in the same tree, but use_after_free was not reported "
                                 f"[checks recorded on it: {[(k.name, k.status.value) for k in e.recorder.checks.get(c.cid, [])]}; "
-                                f"tree: {[(n.rec.request.method, n.rec.request.path, n.status, n.parent is not None) for n in nodes.values() if n.rec is not None][:8]}]", what="uaf_missed",
-                          delete_has_parent=d.parent is not None)
+                                f"tree (method, path, status, parent): {[(n.rec.request.method, n.rec.request.path, n.status, (nodes[n.parent].rec.request.method + ' ' + nodes[n.parent].rec.request.path) if n.parent in nodes and nodes[n.parent].rec is not None else None) for n in nodes.values() if n.rec is not None][:10]}]", what="uaf_missed",
+                          delete_has_parent=d.parent is not None,
+                          # D7: the implementation looks at the status of the DELETE's *parent* response
+                          # the implementation raises for the *first* related DELETE it accepts; when that is another DELETE of the
+                          # tree (accepted through D7 / the rstrip('s') heuristic) whose operation already has a reported
+                          # use-after-free, the engine's de-duplication swallows this one
+                          other_delete_already_reported=any(
+                              x.order < c.order and x.rec is not None and x.rec.request.method == "DELETE" and x.label != d.label and x.label in seen_uaf_ops
+                              for x in nodes.values()),
+                          delete_parent_2xx=bool(d.parent is not None and nodes.get(d.parent) is not None and nodes[d.parent].status is not None
+                                                 and 200 <= nodes[d.parent].status < 300))
             if "ensure_resource_availability" in enabled and c.status is not None:
                 p = era_star(ctx, nodes, c)
                 rec = "ensure_resource_availability" in failed
